@@ -269,6 +269,77 @@ def _task(args):
     return st, list(viols.values()), samples
 
 
+def random_pipelines(tier):
+    """Pipelines with a seeded per-epoch reshuffle: the plain pipeline and the profiled twin are built from equally
+    seeded fresh generators and compared epoch by epoch (errors included)."""
+    import lazy_dataset
+    import numpy as np
+    from lazy_dataset.core import ProfilingDataset
+    from vf import fns
+    viols, count = [], 0
+
+    def build(prog, seed, n):
+        ds = lazy_dataset.new({f'k{i}': i for i in range(n)})
+        for j, op in enumerate(prog):
+            rng = np.random.RandomState(seed + j)
+            if op == 'reshuffle':
+                ds = ds.shuffle(True, rng=rng)
+            elif op == 'local':
+                ds = ds.shuffle(True, rng=rng, buffer_size=2)
+            elif op == 'map':
+                ds = ds.map(fns.add10)
+            elif op == 'batch':
+                ds = ds.batch(2)
+            elif op == 'catch':
+                ds = ds.catch()
+            elif op == 'prefetch1':
+                ds = ds.prefetch(1, 2)
+            elif op == 'prefetch2':
+                ds = ds.prefetch(2, 2)
+            elif op == 'items':
+                ds = ds.items()
+            elif op == 'freeze':
+                ds = ds.copy(freeze=True)
+            elif op == 'filter':
+                ds = ds.filter(fns.is_small)
+        return ds
+
+    tails = ['map', 'batch', 'catch', 'prefetch1', 'prefetch2', 'items', 'freeze', 'filter']
+    progs = [[r] + list(t) for r in ('reshuffle', 'local') for k in (0, 1, 2)
+             for t in itertools.product(tails, repeat=k)]
+    for prog in progs:
+        for n in (0, 3):
+            for seed in range(2 if tier == 'quick' else 6):
+                try:
+                    a = build(prog, seed, n)
+                    plain = [O.run_iter(lambda: iter(a), n + 3) for _ in range(2)]
+                except BaseException:       # noqa: BLE001
+                    continue
+                if any(e is not None for _, e in plain):
+                    continue        # not a working pipeline (C01's business)
+                count += 1
+                try:
+                    P = ProfilingDataset(build(prog, seed, n))
+                    prof = [O.run_iter(lambda: iter(P), n + 3) for _ in range(2)]
+                    frozen = ProfilingDataset(build(prog, seed, n)).copy(freeze=True)
+                    fz = [O.run_iter(lambda: iter(frozen), n + 3) for _ in range(2)]
+                    want_fz = build(prog, seed, n).copy(freeze=True)
+                    wf = [O.run_iter(lambda: iter(want_fz), n + 3) for _ in range(2)]
+                except BaseException as e:      # noqa: BLE001
+                    prof, fz, wf = f'raises {type(e).__name__}', None, None
+                if prof != plain:
+                    viols.append(common.Violation(
+                        'C20', f'not-transparent/random-pipeline/{prog[-1]}',
+                        f'{prog} seed={seed} n={n}: profiled pipeline gives {prof}, plain pipeline {plain}',
+                        {'engine': 'random-pipelines', 'prog': prog}))
+                elif fz != wf:
+                    viols.append(common.Violation(
+                        'C20', f'not-transparent/frozen-copy/{prog[-1]}',
+                        f'{prog} seed={seed} n={n}: copy(freeze=True) of the profiled pipeline gives {fz}, of the plain '
+                        f'pipeline {wf}', {'engine': 'random-pipelines', 'prog': prog}))
+    return count, viols
+
+
 def prefetch_clause(res, tier):
     """Behind thread prefetch: counters are shared by the copies the workers use; explored over all schedules."""
     from vf.checks import _e2
@@ -277,6 +348,10 @@ def prefetch_clause(res, tier):
              dict(entry='prefetch', n=3, w=2, b=2, backend='t', profile=True, fail_fn={1: 'ValueError'})]
     _e2.run_matrix('C20', 'oracle_profile', [(c, 'D', None) for c in cfgs], res,
                    'E2: ProfilingDataset(ds.map(f).prefetch(w, b)), all schedules')
+    bound = 1 if tier == 'quick' else 2
+    _e2.run_matrix('C20', 'oracle_profile', [(c, 'L', bound) for c in cfgs if c['n'] == 2 or (tier == 'thorough' and c['w'] == 2)],
+                   res, f'E2 mode L: every source line (the counter updates included) a scheduling point, preemption bound {bound}',
+                   cap=60000)
 
 
 def run(tier):
@@ -290,6 +365,14 @@ def run(tier):
         samples += smp
         res.violations.extend(common.Violation.from_json(v) for v in viols)
     prefetch_clause(res, tier)
+    cnt, rv = random_pipelines(tier)
+    total['states'] += cnt
+    total['transitions'] += cnt
+    seen = set()
+    for x in rv:
+        if x.key not in seen:
+            seen.add(x.key)
+            res.violations.append(x)
     res.violations.sort(key=lambda v: (len(v.replay.get('program', {}).get('ops', [])), v.key))
     cov = res.coverage
     cov['states'] = cov.get('states', 0) + total['states']
@@ -311,6 +394,11 @@ def run(tier):
 def replay(data):
     r = data['replay']
     res = common.Result()
+    if r.get('engine') == 'random-pipelines':
+        cnt, rv = random_pipelines('quick')
+        res.violations = [x for x in rv if x.replay['prog'] == r['prog']][:1]
+        res.coverage.update(states=1, transitions=cnt)
+        return res
     if r.get('engine') != 'seqmc-profiling':
         from vf.checks import _e2
         return _e2.replay('C20', data)
